@@ -51,9 +51,12 @@ def install(ex, log):
     ex.model_path('zksync_concurrency::sync::acquire_many_owned', acquire)
 
     def try_acquire(e, n, a):
-        sem = deref_all(a[0])
-        log().append(('acquire', sem.name, a[1])); return ok(Permit(sem, a[1]))
-    ex.model(r'(tokio|zksync_concurrency)::sync::Semaphore::try_acquire_many_owned', try_acquire)
+        # non-blocking acquisition: fails when the permits are exhausted (the peer is sending faster than the node consumes)
+        sem = deref_all(a[0]); cnt = a[1] if len(a) > 1 else Num(1, 32)
+        zero = cnt.concrete and cnt.e == 0          # acquiring nothing always succeeds on an open semaphore (tokio)
+        if not zero and e.choose(2, 'try_acquire_no_permits') == 0: return err(Opaque('TryAcquireError::NoPermits'))
+        log().append(('acquire', sem.name, cnt)); return ok(Permit(sem, cnt))
+    ex.model(r'(tokio|zksync_concurrency)::sync::Semaphore::try_acquire(_many)?_owned', try_acquire)
     reads = [0]
 
     def read_exact(e, n, a):
